@@ -125,7 +125,7 @@ func (sc *scenario) setPhase(s string) {
 		fmt.Fprintf(&sc.phaseLog, "%s@%dus ", s, time.Since(sc.t0)/time.Microsecond)
 	}
 }
-func (sc *scenario) isStopping() bool  { return atomic.LoadInt32(&sc.stopping) != 0 }
+func (sc *scenario) isStopping() bool { return atomic.LoadInt32(&sc.stopping) != 0 }
 
 func (sc *scenario) releaseAllGates() {
 	for _, g := range sc.gates {
@@ -881,12 +881,14 @@ func (sc *scenario) run() {
 	// Two Connections whose Writers both fail while the transport stays open can
 	// never answer each other: Close (by design) waits for the unanswered outgoing
 	// calls until the link breaks. Break it soon instead of waiting for softDL.
-	bothWriteFaults := len(sc.eps) == 2 && atomic.LoadInt32(&sc.eps[0].fc.wFailing) != 0 && atomic.LoadInt32(&sc.eps[1].fc.wFailing) != 0
-	if bothWriteFaults {
+	bothWriteFaults := func() bool {
+		return len(sc.eps) == 2 && atomic.LoadInt32(&sc.eps[0].fc.wFailing) != 0 && atomic.LoadInt32(&sc.eps[1].fc.wFailing) != 0
+	}
+	graceDL := time.Now().Add(30 * time.Millisecond)
+	waitUntil(func() bool { return allDone() || (bothWriteFaults() && time.Now().After(graceDL)) }, softDL)
+	if !allDone() && bothWriteFaults() {
 		sc.count("both_write_faults")
-		if !waitUntil(allDone, time.Now().Add(30*time.Millisecond)) {
-			sc.link.sever()
-		}
+		sc.link.sever()
 	}
 	if !waitUntil(allDone, softDL) {
 		sc.forceSever("close")
